@@ -91,6 +91,23 @@ fn run_one(bytes: &[u8], probe: bool) -> Fate {
     }
 }
 
+#[repr(C)]
+struct RLimit {
+    cur: u64,
+    max: u64,
+}
+extern "C" {
+    fn setrlimit(resource: i32, rlim: *const RLimit) -> i32;
+}
+/// RLIMIT_AS (Linux: resource 9) for this process; best effort
+fn limit_address_space(bytes: u64) {
+    #[cfg(target_os = "linux")]
+    unsafe {
+        let l = RLimit { cur: bytes, max: bytes };
+        let _ = setrlimit(9, &l);
+    }
+}
+
 /// Child entry point: reads a batch file (u32 count, then u32 len + bytes each) and prints one line per case.
 #[test]
 fn x_child() {
@@ -100,6 +117,10 @@ fn x_child() {
     };
     let start: usize = std::env::var("VERIF_CHILD_START").ok().and_then(|s| s.parse().ok()).unwrap_or(0);
     let probe = std::env::var("VERIF_CHILD_PROBE").is_ok();
+    // Memory policy of the child: 4 GiB of address space. Every input of the sweeps is smaller than 64 KiB, for
+    // which even the generous budget of property C12 (64 MiB + 8 KiB per input byte) is below 1 GiB - so an
+    // allocation failure (= process abort) under this limit is caused by a size that is merely DECLARED in the file.
+    limit_address_space(4 << 30);
     let mut data = Vec::new();
     std::fs::File::open(&path).unwrap().read_to_end(&mut data).unwrap();
     std::panic::set_hook(Box::new(|_| {}));
@@ -314,6 +335,17 @@ fn corpus_files() -> Vec<(String, Vec<u8>)> {
 
 fn special_models() -> Vec<(String, Vec<u8>)> {
     let mut v = Vec::new();
+    // a 150-byte file whose frame and first chunk DECLARE ~4 GiB: the declared size must not be reserved
+    {
+        let mut s = Sprite::new(2, 2, Fmt::Rgba, 1);
+        s.layers.push(LayerM::image("a"));
+        let mut b = encode(&s);
+        if b.len() >= 128 + 16 + 6 {
+            b[128..132].copy_from_slice(&0xffff_ffffu32.to_le_bytes()); // frame size
+            b[144..148].copy_from_slice(&0xffff_ff00u32.to_le_bytes()); // size of the first chunk (within the frame budget)
+            v.push(("frame and chunk declare 4 GiB".into(), b));
+        }
+    }
     // first layer with a non-zero child level; deep nesting; many layers
     for &lv in &[1u16, 2, 65535] {
         let mut s = Sprite::new(2, 2, Fmt::Rgba, 1);
